@@ -309,6 +309,30 @@ def run(cx, rep):
                     txt = s(p["value"])
                     rep.ob("C02.3", "%s/pattern-is-regex" % fname, txt.endswith(".source") or unparen(p["value"])["type"] == "StringLiteral",
                            "%s emits `pattern: %s`: the value is the TypeScript template-literal text, not a regular expression" % (fname, txt), mod.loc(p["value"]))
+            # Draft 2020-12: anyOf / allOf / oneOf / prefixItems are `schemaArray`s (minItems 1): an array that IS empty
+            # (literal `[]`), or that is the image of a constructor field which may be empty while no other branch
+            # handles the empty case, makes the document ill-formed
+            for p in obj["properties"]:
+                if p["type"] == "KeyValueProperty" and tsast.prop_key(p["key"]) in ("anyOf", "allOf", "oneOf", "prefixItems"):
+                    kw = tsast.prop_key(p["key"])
+                    v = unparen(p["value"])
+                elif p["type"] == "Identifier" and p["value"] in ("anyOf", "allOf", "oneOf", "prefixItems"):
+                    kw = p["value"]
+                    v = p
+                    p = {"value": p}
+                else:
+                    continue
+                al_ = ts_common.local_aliases(fn)
+                if v.get("type") == "Identifier" and v["value"] in al_:
+                    v = unparen(al_[v["value"]])
+                if v.get("type") == "ArrayExpression":
+                    rep.ob("C02.3", "%s/%s-nonempty" % (fname, kw), len(v["elements"]) >= 1,
+                           "%s emits `%s: []`: the Draft 2020-12 meta-schema requires at least one subschema (use `false` / `{not: {}}`)" % (fname, kw), mod.loc(p["value"]))
+                elif kw == "prefixItems":
+                    # image of the tuple's fixed items: empty for `[]` and for rest-only tuples unless the method tests the length
+                    guarded = any(x["type"] in ("IfStatement", "ConditionalExpression") and ".length" in s(x["test"]) for x in walk(fn))
+                    rep.ob("C02.3", "%s/%s-nonempty" % (fname, kw), guarded,
+                           "%s emits `prefixItems: %s` without a test for the empty case: for the tuple type `[]` (and for `[...T[]]`) the document contains `prefixItems: []`, which the Draft 2020-12 meta-schema rejects" % (fname, s(v)[:40]), mod.loc(p["value"]))
             if "additionalProperties" in keys and "type" in keys:
                 tv = [unparen(p["value"]) for p in obj["properties"] if p["type"] == "KeyValueProperty" and tsast.prop_key(p["key"]) == "type"]
                 if tv and tv[0]["type"] == "StringLiteral":
